@@ -169,7 +169,10 @@ fn parts_2_and_3(tier: Tier, seed: u64) -> Extra {
         x.harness = Some(format!("part 2: the proc engine binary {} does not exist (seam build failed?)", proc_bin));
     } else {
         let ev = cli::scratch_dir("c16p2").join("part2.json");
-        let out = std::process::Command::new(&proc_bin)
+        // the soft address-space limit of this (supervised) process must not be inherited by the
+        // shuttle engine, whose detected deadlocks leak task stacks (virtual memory only)
+        let out = std::process::Command::new("sh")
+            .args(["-c", "ulimit -S -v unlimited 2>/dev/null; exec \"$0\" \"$@\"", &proc_bin])
             .args(["run", "C16", "--tier", tier.name(), "--seed", &seed.to_string()])
             .env("VERIF_EVIDENCE_FILE", &ev)
             .env_remove("VERIF_CHILD")
